@@ -37,6 +37,7 @@ fn main() {
         "io_fail_bar" => c18::io_fail_bar(rest),
         "io_fail_multi" => c18::io_fail_multi(rest),
         "human_float" => c15::human_float(rest),
+        "human_duration" => c15::human_duration(rest),
         "human_count" => c15::human_count(rest),
         "formatted_duration" => c15::formatted_duration(rest),
         "bar_screen" => bar::bar_screen(rest),
